@@ -12,6 +12,40 @@ PAYLOADS = [
     "nul\u0000x", "‮evil", "'", "//c", "/*c", "`tick`", "${x}", "; fn pwn() {}", "\")]; struct P;", "<T>", "\t", "é日😀",
 ]
 LONG = "L" * 65536
+# valid regular expressions that try to leave a (raw) string literal
+PATTERN_PAYLOADS = ['^href="# // [a-z]+$', 'a"#.repeat(3).as_str() // "', 'x"##y"###z', 'q"# ; let _x = 1; //', "^a\\d+\"$", "r#\"x\"#", "[\"']+", "^\\\\$"]
+
+
+def templates(text):
+    """(macro, template literal) of every format-style macro invocation in an emitted file"""
+    out = []
+    for m in re.finditer(r'\b(format|write|writeln|print|println|eprint|eprintln|panic|format_args|unreachable|todo|unimplemented|assert|debug_assert|anyhow|bail)!\s*\(\s*(?:[A-Za-z_][\w.]*\s*,\s*)?"((?:[^"\\]|\\.)*)"', text):
+        out.append((m.group(1), m.group(2)))
+    return out
+
+
+def placeholders(tpl):
+    """the placeholders of a std::fmt template ('{{' and '}}' are escapes); None if it is malformed"""
+    out, i = [], 0
+    while i < len(tpl):
+        c = tpl[i]
+        if c == "{":
+            if tpl[i + 1:i + 2] == "{":
+                i += 2
+                continue
+            j = tpl.find("}", i)
+            if j < 0:
+                return None
+            out.append(tpl[i + 1:j])
+            i = j + 1
+        elif c == "}":
+            if tpl[i + 1:i + 2] == "}":
+                i += 2
+                continue
+            return None
+        else:
+            i += 1
+    return out
 
 
 def base_spec():
@@ -19,12 +53,15 @@ def base_spec():
         "openapi": "3.1.0",
         "info": {"title": "T " + INERT, "version": "1", "description": "D " + INERT},
         "servers": [{"url": "https://example.com/" + "base"}],
-        "paths": {"/items/{id}": {
+        "paths": {"/items": {"post": {"operationId": "createItem", "requestBody": {"required": True, "content": {"application/json": {"schema": {"$ref": "#/components/schemas/NewItem"}}}},
+                                      "responses": {"204": {"description": "made"}}}},
+                  "/items/{id}": {
             "get": {"operationId": "getItem", "summary": "S " + INERT, "description": "OD " + INERT,
                     "parameters": [{"name": "id", "in": "path", "required": True, "description": "PD " + INERT, "schema": {"type": "string", "default": "dflt"}},
                                    {"name": "X-H", "in": "header", "description": "HD " + INERT, "schema": {"type": "string", "example": "ex"}}],
                     "responses": {"200": {"description": "RD " + INERT, "content": {"application/json": {"schema": {"$ref": "#/components/schemas/Item"}}}}}}}},
         "components": {"schemas": {
+            "NewItem": {"type": "object", "properties": {"code": {"type": "string", "pattern": "^abc$"}, "label": {"type": "string", "default": "lb", "maxLength": 40}}},
             "Item": {"type": "object", "description": "SD " + INERT, "title": "ItemTitle",
                      "properties": {"name": {"type": "string", "description": "FD " + INERT, "default": "nm", "example": "ex2"},
                                     "kind": {"type": "string", "enum": ["alpha", "beta"], "description": "ED " + INERT},
@@ -64,6 +101,9 @@ POSITIONS = [
     P(["paths", "/items/{id}", "get", "parameters", 0, "schema", "default"]),
     P(["paths", "/items/{id}", "get", "parameters", 1, "schema", "example"]),
     P(["components", "schemas", "Item", "properties", "code", "pattern"], wrap=lambda t: "^" + re.escape(t) + "$"),
+    P(["components", "schemas", "NewItem", "properties", "code", "pattern"], kind="rawpattern"),
+    P(["components", "schemas", "NewItem", "properties", "code", "pattern"], wrap=lambda t: "^" + re.escape(t) + "$"),
+    P(["components", "schemas", "NewItem", "properties", "label", "default"]),
     P(["servers", 0, "url"], wrap=lambda t: "https://example.com/" + t),
     P(["components", "schemas", "Item", "properties", "kind", "enum", 1], kind="ident"),
     P(["components", "schemas", "Kind", "enum", 0], kind="ident"),
@@ -94,12 +134,15 @@ def main(tier, seed, replay=None):
         payloads = list(dict.fromkeys(payloads))
     else:
         payloads.append(LONG)
-    modes = ["types", "client-mod"] if tier == "quick" else ["types", "client-mod", "server-mod"]
-    jobs = [("inert", None, m) for m in modes] + [(pos[0], pl, m) for pos in POSITIONS for pl in payloads for m in modes]
+    modes = ["types", "client-mod", "server-mod"]
+    POS_UNIQ = []
+    for k, pos in enumerate(POSITIONS):
+        POS_UNIQ.append((pos[0] + ("#raw" if pos[2] == "rawpattern" else ""),) + tuple(pos[1:]))
+    jobs = [("inert", None, m) for m in modes] + [(pos[0], pl, m) for pos in POS_UNIQ for pl in (PATTERN_PAYLOADS if pos[2] == "rawpattern" else payloads) for m in modes]
     if replay:
         r = json.load(open(replay))
         jobs = [("inert", None, r["mode"]), (r["position"], r["payload"], r["mode"])]
-    posmap = {p[0]: p for p in POSITIONS}
+    posmap = {p[0]: p for p in POS_UNIQ}
 
     def one(j):
         posname, pl, mode = j
@@ -116,9 +159,10 @@ def main(tier, seed, replay=None):
     allfiles = [f for r in results for f in r[2]]
     sk = {x["file"]: x for x in vlib.vtool_lines("skeleton", allfiles)}
     viol, known_hits = [], set()
-    inert = {}
+    inert, inert_files = {}, {}
     for (posname, pl, mode), (rc, txt, files) in zip(jobs, results):
         if pl is None:
+            inert_files[mode] = files
             inert[mode] = [sk[f] for f in files]
             if rc != 0 or any("error" in s for s in inert[mode]):
                 viol.append((posname, pl, mode, f"inert run failed rc={rc} {txt}"))
@@ -137,7 +181,7 @@ def main(tier, seed, replay=None):
         if bad:
             viol.append((posname, pl, mode, f"payload {pl[:30]!r} at {posname}: emitted file does not lex/parse: {bad[0]['error'][:200]}"))
             continue
-        key = "skeleton" if kind == "text" else "skeleton_noident"
+        key = "skeleton" if kind in ("text", "rawpattern") else "skeleton_noident"
         for a, b in zip(inert[mode], sks):
             if a[key] != b[key]:
                 # first difference
@@ -145,10 +189,19 @@ def main(tier, seed, replay=None):
                 viol.append((posname, pl, mode, f"payload {pl[:30]!r} at {posname}: item/attribute/expression structure changed near `{a[key][max(0,i-60):i+60]}` vs `{b[key][max(0,i-60):i+60]}`"))
                 break
         else:
+            # format templates: the placeholders of every format-style macro must be those of the inert run
+            for fa, fb in zip(inert_files[mode], files):
+                ta, tb = templates(open(fa, errors="replace").read()), templates(open(fb, errors="replace").read())
+                if [m for m, _ in ta] == [m for m, _ in tb]:
+                    for (m1, x), (_, y) in zip(ta, tb):
+                        px, py = placeholders(x), placeholders(y)
+                        if px != py:
+                            viol.append((posname, pl, mode, f"payload {pl[:30]!r} at {posname}: spec text is interpreted as a format template: {m1}!(\"{y[:80]}\") has placeholders {py}, the inert run {px}"))
+                            break
             # recoverability: wherever the inert marker was a literal/doc, the payload must be found byte-for-byte
             inert_lits = [l for s in inert[mode] for l in s["literals"]]
             lits = [l for s in sks for l in s["literals"]]
-            if kind == "text" and posname not in ("components/schemas/Item/properties/code/pattern",):
+            if kind in ("text", "rawpattern") and posname not in ("components/schemas/Item/properties/code/pattern", "components/schemas/NewItem/properties/code/pattern"):
                 had = any(INERT in l for l in inert_lits) if posname.endswith(("description", "summary", "title")) else True
                 want = pl
                 found = any(want in l for l in lits) or any(want.replace("\r\n", "\n") in l for l in lits)
